@@ -55,10 +55,19 @@ def check(repo: Repo) -> Result:
     data_forms = {"self.ndview", "self.d", "self.view(np.ndarray)"}
     prods = [x for x in ast.walk(fn.node) if isinstance(x, ast.BinOp) and isinstance(x.op, ast.Mult) and ({cnorm(x.left), cnorm(x.right)} & data_forms or any(cnorm(y) in data_forms for y in ast.walk(x.left)))]
     if not prods:
-        raise AnalysisError(f"{fn.where()}: the product data * factor was not found in in_units")
-    cs = [(c, d) for c, d in casts(fn) if c.args and any(c.args[0] is p_ for p_ in prods)]
+        # no `data * factor` expression: if the copying route scales in place after casting, the cast happens before the
+        # multiplication - narrow integers are rounded to the narrow float first and the factor is rounded to it too
+        early = [c for c, d in casts(fn) if c.args and cnorm(c.args[0]) in data_forms or (isinstance(c.func, ast.Attribute) and c.func.attr == "astype" and cnorm(c.func.value) in data_forms)]
+        if early:
+            res.bad("in_units:cast", fn.where(early[0]), "in_units casts the bare data to the selected float type first and multiplies afterwards: 16-/32-bit integers are rounded before scaling and the factor is rounded to the narrow type (uint16 65535 mm -> m gives inf), so the stored value is no longer the exact product rounded once", "np.asarray(self.ndview * factor, dtype=...)", cnorm(early[0]), rid=r1)
+            prods = None
+        else:
+            raise AnalysisError(f"{fn.where()}: the product data * factor was not found in in_units")
+    cs = [(c, d) for c, d in casts(fn) if c.args and any(c.args[0] is p_ for p_ in (prods or []))]
     want = "np.dtype(('c' if self.dtype.kind == 'c' else 'f') + str(max(2, self.dtype.itemsize)))"
-    if len(cs) != 1:
+    if prods is None:
+        pass
+    elif len(cs) != 1:
         res.bad("in_units:dtype", fn.where(prods[0]), "in_units multiplies the data by the factor without casting the product to the selected float / complex dtype (the result takes whatever type NumPy's promotion gives, e.g. float64 for float32 data, or the cast happens before the multiplication)", f"np.asarray(data * factor, dtype={want})", cnorm(prods[0]), rid=r1)
         res.bad("in_units:cast", fn.where(prods[0]), "the converted data are produced by multiplying the bare data with the (float) factor and casting the product to the selected dtype", rid=r1)
     else:
@@ -166,7 +175,11 @@ def check(repo: Repo) -> Result:
     r3 = res.rule("C17-R3", "copying base / unit conversions multiply the data by the (float) factor on every path: a path that hands back unmultiplied data keeps integer data integer while the in-place route promotes", floor=3)
     share(res, r3, "C03", lambda t: c03.apply_idiom(repo, t), ["C03-R2"], want=lambda k: k in ("in_units", "in_base", "in_base:result", "in_units:result", "convert_to_units"), min_keys=3)
     r4 = res.rule("C17-R4", "equivalence formulas have no step with integer (truncating) semantics: copying and in-place equivalence conversions of integer data agree", floor=30)
-    share(res, r4, "C09", lambda t: t.__dict__.update(c09.check(repo).__dict__), ["C09-R8"], min_keys=30)
+    share(res, r4, "C09", lambda t: t.__dict__.update(c09.check(repo).__dict__), ["C09-R8"], min_keys=20)
+    from rules import c02
+
+    r5 = res.rule("C17-R5", "the conversion factor handed to every route is the floating-point ratio old scale / new scale, never cast to the data's (integer) dtype", floor=3)
+    share(res, r5, "C02", lambda t: c02.ratio_direction(repo, t), ["C02-R4"], min_keys=3)
     return res
 
 
@@ -202,4 +215,6 @@ MUTANTS = [
     Mutant("threshold-off", ARR, None, "LARGE_INPUT = {4: 16777217, 8: 9007199254740993}", "LARGE_INPUT = {4: 16777217, 8: 9007199254740992}", ("C17-R2",)),
     Mutant("warning-dropped", ARR, "unyt_array.in_units", "                if large and np.any(np.abs(self.d) > large):", "                if False:", ("C17-R2",)),
     Mutant("in-base-skips-unit-factor", ARR, "unyt_array.in_base", "ret = self.v * conv", "ret = self.v\n        if conv != 1:\n            ret = ret * conv", ("C17-R3",)),
+    Mutant("factor-cast-to-data-dtype", UO, "_get_conversion_factor", "    ratio = old_basevalue / new_basevalue\n", "    ratio = old_basevalue / new_basevalue\n    if np.dtype(dtype).kind != \"i\":\n        ratio = np.dtype(dtype).type(ratio)\n", ("C17-R5",)),
+    Mutant("in-units-cast-before-multiply", ARR, "unyt_array.in_units", "np.asarray(self.ndview * conversion_factor, dtype=new_dtype)", "np.multiply(self.ndview.astype(new_dtype), conversion_factor)", ("C17-R1",)),
 ]
